@@ -469,6 +469,15 @@ func (se *specEnv) eval(x ast.Expr) (out Val) {
 		if v, ok := se.names[n.Name]; ok {
 			return v
 		}
+		if strings.HasPrefix(n.Name, "ssa_") {
+			// an SSA register named by generated (type-derived) clauses
+			for sv, val := range se.f.vals {
+				if sv.Name() == n.Name[4:] {
+					return val
+				}
+			}
+			panic("spec: unknown name " + n.Name)
+		}
 		// a local that lives in a cell denotes the cell's current content (value
 		// DebugRefs of such a variable are snapshots taken at earlier reads)
 		if v, ok := se.f.lookupName("&" + n.Name); ok && !se.noLocal {
@@ -761,6 +770,15 @@ func (se *specEnv) evalCall(n *ast.CallExpr) Val {
 			o.st = hi.st
 			o.noLocal = true
 			return o.eval(n.Args[0])
+		case "oldelem": // element j of the slice header s (evaluated now), read from the entry-state heap
+			sv := arg(0)
+			sl, ok := sv.typ.Underlying().(*types.Slice)
+			if !ok {
+				panic("spec: oldelem on non-slice")
+			}
+			idx := se.coerce(arg(1), types.Typ[types.Int])
+			h := e.heapTerm(se.pre, sl.Elem(), true)
+			return Val{term: fmt.Sprintf("(select (select %s (s_base %s)) %s)", h, sv.term, e.idxAdd(fmt.Sprintf("(s_off %s)", sv.term), e.toIdx(idx))), typ: sl.Elem()}
 		case "wf": // well-formed slice or string header
 			return boolVal(e.wfSlice(arg(0).term))
 		case "bv2nat", "nat": // unsigned value of an integer as int (for mixed-width arithmetic in bv mode)
@@ -778,6 +796,18 @@ func (se *specEnv) evalCall(n *ast.CallExpr) Val {
 				}
 				return Val{term: e.convert(v.term, v.typ, tn.Type()), typ: tn.Type()}
 			}
+		}
+		// a function-typed parameter modelled as a pure function
+		if pv, ok := se.names[id.Name]; ok && pv.uf != "" || !ok && se.f.params[id.Name].uf != "" && !se.closed {
+			if !ok {
+				pv = se.f.params[id.Name]
+			}
+			sig := pv.typ.Underlying().(*types.Signature)
+			var as []string
+			for i := range n.Args {
+				as = append(as, se.coerce(arg(i), sig.Params().At(i).Type()).term)
+			}
+			return Val{term: "(" + pv.uf + " " + strings.Join(as, " ") + ")", typ: sig.Results().At(0).Type()}
 		}
 		if rc := se.f.rootCtr(); rc != nil {
 			for _, g := range rc.GhostCalls {
